@@ -795,6 +795,10 @@ class Mesh:
         if 'subdomains' in data and data['subdomains'] is not None:
             data['subdomains'] = {k: np.array(v)
                                   for k, v in data['subdomains'].items()}
+        # optional: orientations of the oriented boundaries
+        for k, ori in (data.pop('orientations', None) or {}).items():
+            data['boundaries'][k] = OrientedBoundary(data['boundaries'][k],
+                                                     ori)
         data['doflocs'] = data.pop('p')
         data['_subdomains'] = data.pop('subdomains')
         data['_boundaries'] = data.pop('boundaries')
@@ -808,12 +812,19 @@ class Mesh:
             boundaries = {k: v.tolist() for k, v in self.boundaries.items()}
         if self.subdomains is not None:
             subdomains = {k: v.tolist() for k, v in self.subdomains.items()}
-        return {
+        out = {
             'p': self.p.T.tolist(),
             't': self.t.T.tolist(),
             'boundaries': boundaries,
             'subdomains': subdomains,
         }
+        if self.boundaries is not None:
+            orientations = {k: v.ori.tolist()
+                            for k, v in self.boundaries.items()
+                            if isinstance(v, OrientedBoundary)}
+            if len(orientations) > 0:
+                out['orientations'] = orientations
+        return out
 
     @classmethod
     def from_mesh(cls, mesh, t: Optional[ndarray] = None):
@@ -1379,7 +1390,8 @@ class Mesh:
             data['doflocs'],
             data['t'],
             _boundaries={
-                key[2:]: data[key]
+                key[2:]: (OrientedBoundary(data[key], data['o_' + key[2:]])
+                          if 'o_' + key[2:] in data.files else data[key])
                 for key in data.files
                 if key[:2] == 'b_'
             },
@@ -1394,6 +1406,9 @@ class Mesh:
 
         boundaries = {} if self.boundaries is None else self.boundaries
         subdomains = {} if self.subdomains is None else self.subdomains
+        orientations = {'o_' + key: value.ori
+                        for key, value in boundaries.items()
+                        if isinstance(value, OrientedBoundary)}
         boundaries = {'b_' + key: value for key, value in boundaries.items()}
         subdomains = {'s_' + key: value for key, value in subdomains.items()}
         np.savez(
@@ -1402,4 +1417,5 @@ class Mesh:
             t=self.t,
             **boundaries,
             **subdomains,
+            **orientations,
         )
